@@ -13,7 +13,7 @@ from fractions import Fraction
 import z3
 
 from . import values as V
-from .values import Seq, SetV, DictV, Obj, ObjSeq, Func, Module, RangeV, OutOfSubset, Opaque, is_z3
+from .values import Seq, SetV, DictV, Obj, ObjSeq, Func, Module, RangeV, OutOfSubset, Opaque, OptV, is_z3
 
 
 class PathEnd(Exception):
@@ -685,7 +685,7 @@ class Executor:
             elif isinstance(base, DictV):
                 key = self.as_key(self.eval(t.slice, env), base.dom.sort().domain())
                 base.dom = z3.Store(base.dom, key, z3.BoolVal(True))
-                base.val = z3.Store(base.val, key, V.to_z3(val, base.val.sort().range() == z3.RealSort()))
+                base.val = z3.Store(base.val, key, self.to_term(val, base.val.sort().range()))
             else:
                 raise OutOfSubset("subscript store on %r" % (base,), t)
         else:
@@ -788,10 +788,20 @@ class Executor:
         return z3.And(n == V.to_z3(b2.len()),
                       z3.ForAll([i], z3.Implies(z3.And(i >= 0, i < n), z3.Select(a2.arr, i) == z3.Select(b2.arr, i))))
 
+    def to_term(self, v, sort):
+        if isinstance(v, OptV):
+            self.safety("not-none", z3.Not(v.isnone), ast.Pass(lineno=self.fn.lineno))
+            v = v.val
+        if isinstance(v, Opaque):
+            return v.term
+        return V.to_z3(v, sort == z3.RealSort())
+
     def as_key(self, v, keysort):
         """python value used as set/dict key -> z3 term of the key sort."""
         if is_z3(v):
             return v
+        if isinstance(v, Opaque):
+            return v.term
         if isinstance(v, Seq):
             if isinstance(keysort, z3.ArraySortRef):
                 return v.to_symbolic().arr
@@ -969,6 +979,9 @@ class Executor:
 
     def compare(self, op, a, b, node):
         if isinstance(op, (ast.Is, ast.IsNot)):
+            if (isinstance(a, OptV) and b is None) or (isinstance(b, OptV) and a is None):
+                r = (a if isinstance(a, OptV) else b).isnone
+                return r if isinstance(op, ast.Is) else z3.Not(r)
             if a is None or b is None:
                 r = (a is None and b is None)
             elif isinstance(a, (Obj, Seq)) or isinstance(b, (Obj, Seq)):
@@ -1106,6 +1119,9 @@ class Executor:
             return z3.Select(base.val, key)
         if isinstance(base, RangeV):
             return _arith(base.lo, idx, lambda x, y: x + y) if (is_z3(base.lo) or is_z3(idx)) else base.lo + idx
+        if isinstance(base, Opaque):
+            from . import prelude
+            return prelude.opaque_item(self, base, idx, e)
         raise OutOfSubset("subscript of %r" % (base,), e)
 
     def slice(self, base, sl, env, node):
